@@ -8,7 +8,7 @@ import os
 
 _IXCOUNT = 0
 
-FIELDS = {"f": 0, "g": 1, "k": 2, "n": 3, "kind": 4, "t": 5, "u": 6}   # 4..6: nested stream only (never sent to the model)
+FIELDS = {"f": 0, "g": 1, "k": 2, "n": 3, "kind": 4, "t": 5, "u": 6, "v": 7}   # 4..7: nested stream only (never sent to the model)
 FNAMES = {v: k for k, v in FIELDS.items()}
 ALPHA = ["a", "ab", "abc", "b", "ba", "c", "ca", "d"]
 BOOSTS = [1.0, 1.0, 1.0, 1.0, 2.0, 0.5, 4.0]
@@ -727,13 +727,13 @@ class deadline(object):
         return False
 
 
-def docs_of(searcher, q):
+def docs_of(searcher, q, timeout=None):
     """sorted stored ids of the *live* documents docs_for_query yields.  (InverseMatcher of the
     pinned tree can yield a deleted document after its child is exhausted; that is a matcher defect,
     property C01/C11, not a rewriting one: deleted documents are dropped here and counted.)"""
     reader = searcher.reader()
     res = []
-    with deadline(SEARCH_TIMEOUT):
+    with deadline(timeout or SEARCH_TIMEOUT):
         for dn in searcher.docs_for_query(q):
             if reader.is_deleted(dn):
                 LEAKS["deleted"] += 1
